@@ -531,7 +531,7 @@ class StmtMixin:
         if not pre:
             out.append(ind + 'do')
             out.append(ind + self.loop_marker(cx))
-            self.stmt_block(body, cx, out, ind)
+            self.loop_body(body, cx, out, ind)
             out.append(ind + 'while (%s);' % v)
         else:
             lbl = cx.newlbl('cont')
